@@ -31,6 +31,10 @@ func Open(filename, password string) (*DB, error) {
 		return nil, fmt.Errorf("error creating sqlite connector: %w", err)
 	}
 	db := sql.OpenDB(connector)
+	// Use a single connection, as documented: the pragmas in the connection
+	// string replace the driver's default busy timeout, so with a pool of
+	// connections concurrent sessions fail with "database is locked".
+	db.SetMaxOpenConns(1)
 	if err := Init(db); err != nil {
 		return nil, err
 	}
